@@ -169,18 +169,20 @@ PROPS["C11"] = dict(
     assumptions=["file names are judged in the canonical lower-case form the node writes itself", "progress is fabricated by writing checkpoints into headers (no table data is needed for indexing)"],
 )
 
+SKC = "poc/engine.v2/spacekeeper/skchia"
+
 PROPS["C09"] = dict(
-    pkgs=[CAP], level="exploration", death_is_violation=True, engine="rapid-harness+gate-scheduler",
+    pkgs=[CAP, SKC], level="exploration", death_is_violation=True, engine="rapid-harness+gate-scheduler",
     quick=dict(checks=4800, shards=16, timeout=600),
     thorough=dict(checks=80000, shards=16, timeout=2400),
     technique="stateful property-based testing with an owned schedule: rapid generates sequences of API actions, plotter gate releases (hook H3) and scripted plot outcomes; invariants and the documented transition relation are checked under the state lock after every step",
     level_text="The plotter goroutine is parked at every step until the generated schedule releases it, plots are scripted (complete/abort), so the interleavings of requests with plotter steps are explored systematically by generation rather than left to the Go scheduler; every observation is judged against invariants and the documented transition table. Exploration over schedules of <=22 steps and <=3 spaces.",
-    level_note="Trusted: the scripted plot-DB backend mirrors MassDBV1's contract (Plot blocks until outcome or stop, StopPlot waits, Delete refuses while plotting); the model in zz_verif_c09_test.go. The chia keeper (skchia) shares the design but only ready/mining are reachable there; it is not instantiated.",
+    level_note="Trusted: the scripted plot-DB backend mirrors MassDBV1's contract (Plot blocks until outcome or stop, StopPlot waits, Delete refuses while plotting); the model in zz_verif_c09_test.go. The chia keeper (skchia) is instantiated on a scripted chia backend without gates (no hooks in that package): only ready/mining are reachable there.",
     assumptions=["requests queued at the moment the keeper is stopped may be dropped or kept (unspecified): the model accepts both", "skchia is not instantiated by this check"],
 )
 
 PROPS["C13"] = dict(
-    pkgs=[CAP, MDB, "poc/engine"], level="exploration", death_is_violation=True, engine="rapid-harness+gate-scheduler",
+    pkgs=[CAP, MDB, "poc/engine", SKC], level="exploration", death_is_violation=True, engine="rapid-harness+gate-scheduler",
     quick=dict(checks=640, shards=16, timeout=900),
     thorough=dict(checks=12000, shards=16, timeout=2400),
     technique="property-based generation of concurrent programs against the keeper (scripted plot backend, plotter gates H3) and against a held real massdb.v1 plot (H2); verdicts from 'everything released, still pending' plus goroutine stacks, recover in callers, process-death attribution",
